@@ -153,6 +153,38 @@ CLAIMS = {
             '(python-2 protocol) and __rpow__ (plain-int result) are outside the stated operator list.'),
 }
 
+# clauses added after the first build round (hunt rounds, DESIGN.md 12.9), appended to the claim text
+ADDED = {
+    'C01': ' Also (D6-D8): cr/dr moves ignore ModRM.mod and segment-register numbers 6/7 are rejected; memory-only operands reject mod=3; the [esi] operand of the string instructions '
+           'takes the segment-override prefix and [edi] stays in es (special_opcodes evaluated on family x prefix).',
+    'C02': ' Also (D5): the reverse ModRM table has an empty reg field, decodes back and is complete.',
+    'C03': ' Also (D5): for movs/cmps/lods a segment override is printed (operand elision of __str__ evaluated) and turned back into the prefix by normalize_args (evaluated).',
+    'C05': ' Also (D4/D5): rewrites are selected by their action; constant folding demands equal widths of associative operands only; every tab_size_int[K] lookup of the simplifier is '
+           'dominated by a membership test, by an isinstance(.., ExprInt) on the value or an operand of it, or ranges over the table keys (no KeyError on 4/24/31-bit slices).',
+    'C06': ' Also: operators the lifter builds with operands of different widths and evaluable operands are exempt from the operand-type check (op_size_no_check names only real operators); '
+           'width-indexed tables cover every constant width; no sign test on an unsigned operand; the through-carry rotations widen their operand before shifting; left shifts bound the count; '
+           'eval_ExprCompose recognises constant slice pieces (widths the lifter composes that no ExprInt can carry); memory cells are stored under the simplified address they are looked up with (D7).',
+    'C07': ' Also (D5/D7): every exit of the rep loop is count==0 or the zf test, a symbolic zf is rejected; a value (pool content, evaluation result, stored address) is never passed to '
+           'eval_expr again (source-order taint with parameters propagated through the self-call graph).',
+    'C08': ' Also (D4): lds/les/lss read the selector operand-size/8 bytes after the offset.',
+    'C09': ' Also (D6): a string instruction whose Intel name is an SSE mnemonic (movsd/cmpsd) is not rendered under that name in AT&T syntax.',
+    'C10': ' Also (D4/D5): a decode that finds no instruction restores the stream offset; mnemo_from_att, evaluated on every mnemonic-like name (Intel names, AT&T table entries, +/- suffix '
+           'letters) x operand shape, returns or raises ValueError; constant operand indices of __str__ are reachable only with enough operands (string-instruction operand counts and '
+           'row-dependent guards evaluated).',
+    'C12': ' Also (D2/D6): every method of the evaluator class counts as an entry point whose defaults callers omit (dict-dispatch callees resolved); sys.path / sys.modules replaced inside a '
+           'function are restored in a finally.',
+    'C14': ' The template family includes the bounded left shift (count >= width of the result class gives 0; a bound taken from a narrower class is a violation) and the modular power '
+           'pow(self.arg, e, limit) with the wider-class cast; the exact power / unbounded shift are violations (the count 2^n-1 is in range).',
+    'C15': ' Also: what get_size() reads takes part in __eq__ (constants of different widths differ); evaluation-control flags the evaluator sets on freshly built nodes of a class survive '
+           'that class\'s copy().',
+    'C16': ' test_set is evaluated on its five cases (success returns the bindings); the class dispatch of MatchExpr fails, never crashes, on classes without a branch.',
+    'C18': ' Also (D7/D8): the render -> assemble half of the fixpoint is decided by evaluating the class methods themselves (getname/args2str/__str__, the tokeniser, check_mnemo of every '
+           'class, parse_opts/str2name/parse_args, field parse/bin): exhaustively over BO x BI x AA x LK for bc/bclr/bcctr, and on boundary field vectors x every extended opcode for every '
+           'other class; the text must be accepted by exactly its own class and every field must come back.',
+    'C19': ' Also (D4): both parsers give a shared register name the same operand size; every condition-code alias (cmovcc/setcc) is read back from AT&T syntax as itself with and without '
+           'size suffix.',
+}
+
 PENDING = {}
 
 ALL = ['C%02d' % i for i in range(1, 20)]
@@ -171,7 +203,7 @@ def main():
             'evidence_file': '/verif/evidence/%s.json' % pid,
             'replay_cmd_template': './check %s --replay {path}' % pid,
             'engine': 'sa',
-            'level_claimed': {'category': cat, 'text': text, 'design_ref': 'DESIGN.md section 5, %s' % pid},
+            'level_claimed': {'category': cat, 'text': text + ADDED.get(pid, ''), 'design_ref': 'DESIGN.md section 5 and 12, %s' % pid},
             'level_note': note,
             'technique': tech,
         })
